@@ -87,7 +87,7 @@ def _chunk(args):
     out = {
         "n": 0, "faults": {}, "probes": {}, "distinct": set(), "nontrivial": 0,
         "steps": 0, "ticks": 0, "viol": {}, "samples": [], "harness": None,
-        "beyond": {}, "digests": {},
+        "beyond": {}, "digests": {}, "_aw": getattr(prop, "ABSTRACT_WIDTH", 2),
     }
     signal.signal(signal.SIGALRM, _on_alarm)
     for i in range(lo, hi):
@@ -137,7 +137,7 @@ def _account(out, results, i, lo):
         if res.nontrivial:
             out["nontrivial"] += 1
             if len(out["distinct"]) < DISTINCT_CAP:
-                out["distinct"].add(res.log.abstract_digest())
+                out["distinct"].add(res.log.abstract_digest(out["_aw"]))
         if base and (i == lo or (i - lo) == 1):
             out["samples"].append({"run_index": i, "scenario": res.scenario[:40]})
         if base and i % 997 == 0:
